@@ -195,6 +195,38 @@ def _run_parsed(ctx, prog, rule="R-SCAN"):
             report(ctx, rule, inst, fn, res)
 
 
+def generic_alphabet(prog, fn, extra=()):
+    """Every character constant of the routine and of the helpers it calls
+    (depth 3), with both neighbours: each class between two consecutive
+    constants then has a representative, whatever the comparison operator."""
+    out = set(extra) | {0, -128, 127}
+    seen = set()
+
+    def visit(f, depth):
+        if f.key in seen or depth > 3:
+            return
+        seen.add(f.key)
+        for i in f.walk():
+            st = f.s(i)
+            if st["k"] == "CharacterLiteral":
+                out.add(int(st["v"]) if int(st["v"]) < 128 else int(st["v"]) - 256)
+            if st["k"] == "CaseStmt":
+                out.add(int(st["lo"]))
+            if st["k"] == "StringLiteral":
+                for b_ in st.get("bytes", []):
+                    out.add(b_ if b_ < 128 else b_ - 256)
+        for i, st in f.calls():
+            g = prog.fns.get(st["callee"]["key"])
+            if g is not None and g.cfg is not None:
+                visit(g, depth + 1)
+    visit(fn, 0)
+    for c in list(out):
+        for d in (-1, 1):
+            if -128 <= c + d <= 127:
+                out.add(c + d)
+    return sorted(out)
+
+
 def run(ctx, prog, rule="R-SCAN"):
     E = {}
     for e in prog.enum("DeserializationError::Code"):
@@ -215,7 +247,11 @@ def run(ctx, prog, rule="R-SCAN"):
             scanfsm.check_eligible(fn)
             sigma = scanfsm.char_consts(fn, extra=(0, ord('"'), ord("'"), ord("\\")))
         except scanfsm.Ineligible as ex:
-            ctx.ob(rule, "skipQuotedString conforms to the quoted-string automaton", None, fn.where, "not eligible for the class abstraction: %s" % ex)
+            # characters go through a predicate (e.g. isQuote(c)): fold the predicates on class representatives
+            alpha = generic_alphabet(prog, fn, extra=(ord('"'), ord("'"), ord("\\")))
+            for q in (ord('"'), ord("'")):
+                res = scanfsm.explore2(prog, fn, alpha, {}, "open", spec_quoted(q), [q], E)
+                report(ctx, rule, "skipQuotedString(%s) conforms to the quoted-string automaton" % chr(q), fn, res)
             continue
         other = next(c for c in range(ord("a"), 256) if c not in sigma)
         for q in (ord('"'), ord("'")):
@@ -231,7 +267,11 @@ def run(ctx, prog, rule="R-SCAN"):
             scanfsm.check_eligible(fn)
             sigma = scanfsm.char_consts(fn, extra=(0, 32, 9, 13, 10, ord("/"), ord("*")))
         except scanfsm.Ineligible as ex:
-            ctx.ob(rule, "skipSpacesAndComments conforms to the separator automaton", None, fn.where, "not eligible for the class abstraction: %s" % ex)
+            alpha = generic_alphabet(prog, fn, extra=(32, 9, 13, 10, ord("/"), ord("*")))
+            has_comments = any(fn.s(i)["k"] == "CaseStmt" and int(fn.s(i)["lo"]) == ord("/") for i in fn.walk()) or \
+                any(fn.s(i)["k"] == "CharacterLiteral" and int(fn.s(i)["v"]) == ord("*") for i in fn.walk())
+            res = scanfsm.explore2(prog, fn, alpha, {}, "sep", spec_separators(has_comments), alpha, E)
+            report(ctx, rule, "skipSpacesAndComments conforms to the separator automaton (comments %s)" % ("on" if has_comments else "off"), fn, res)
             continue
         other = next(c for c in range(ord("a"), 256) if c not in sigma)
         # are comments compiled in?  (the option gate itself is R-OPTGATE's business)
